@@ -43,7 +43,7 @@ def c02 (args : List String) : String :=
         else
           -- conditioning: an input perturbation of the size of one rounding error must not move the result visibly
           -- (f32: ~100 accumulated roundings; f64: the built-in tensor targets store their parameters as f32)
-          let e : Float := if ty = "f32" then 1e-5 else 2e-7
+          let e : Float := if ty = "f32" then 1e-5 else if tspec.head? == some "student" || tspec.head? == some "gauss2" then 2e-6 else 2e-7
           let x2 := x.map fun t => t * (1 + e)
           let p2 := p.map fun t => t * (1 - e)
           let res2 := hmcStepRow t.logp t.grad keF eps 0.5 L x2 p2 lnu
